@@ -305,6 +305,16 @@ class GC(FileStorageFormatter):
                 dh = self._read_data_header(pos)
                 self.checkData(th, tpos, dh, pos)
 
+                if dh.oid not in self.reachable:
+                    # An object written after the pack time is kept
+                    # even if it was unreachable at the pack time: its
+                    # revision current then is needed for snapshots and
+                    # undos between the pack time and this record.
+                    cur = self.oid2curpos.get(dh.oid)
+                    if cur is not None:
+                        self.reachable[dh.oid] = cur
+                        extra_roots.append(cur)
+
                 if dh.back and dh.back < self.packpos:
                     if dh.oid in self.reachable:
                         L = self.reach_ex.setdefault(dh.oid, [])
